@@ -223,7 +223,9 @@ def run(ctx):
         jobs.append(("G1", triples[0], 1, 40000))
     else:
         # two preemptions (A held inside a pass, B held inside a pass, A goes on to a second pass): one pair, split over 8 workers
-        jobs = [("G1", ("simple", "nested"), 2, 100000, (k, 8)) for k in range(8)] + jobs
+        jobs = [("G1", ("simple", "nested"), 2, 100000, (k, 8)) for k in range(8)] + \
+               [("G1", ("simple", "simple"), 2, 100000, (k, 4)) for k in range(4)] + \
+               [("G1", ("simple", "fwd_t"), 2, 100000, (k, 4)) for k in range(4)] + jobs
     tot = dict(executions=0, transitions=0, states=0, overlapped=0)
     outcomes = 0
     per = []
